@@ -2,7 +2,7 @@
    (Gen/ConfTranslated.v, harness/c17xlate.go), computes what the hand-written model Conf/Conf.v computes - for all
    inputs. An edit of the source that changes the meaning of the line loop, of analysisPath or of a typed getter
    makes one of these proofs fail (layer L1). *)
-From Coq Require Import List NArith ZArith Bool Lia ZifyBool ZifyNat ZifyN.
+From Coq Require Import List NArith ZArith Bool Lia ZifyBool ZifyNat ZifyN Permutation.
 From TarsV Require Import Base.Hex Gen.Consts Conf.Conf Conf.ConfSpec Conf.ConfProofs Conf.GoStr Gen.ConfTranslated.
 Import ListNotations.
 Open Scope bool_scope.
@@ -495,3 +495,59 @@ Theorem getElem_translated bs t v : parse bs = Ok t ->
   tr_getElem (find_in t) (Some [root_name]) v =
   Some (match lookup t (key_of_vec v) with Some _ => (Some (key_of_vec v), false) | None => (None, true) end).
 Proof. intros H. destruct (parse_store_closed bs t H) as [C R]. apply tr_getElem_walk; assumption. Qed.
+
+(* ------------------------------------------------------------------------------------------- *)
+(* a Go map iterates in an unspecified order: whatever the order of the children, the listings are the same up to
+   order, each child of the kind once, and getMap builds the same map *)
+Definition kind_is (kd : kind) (c : gchild) : bool := Z.eqb (gc_kind c) (kind_z kd).
+Definition names_of (kd : kind) (cs : list gchild) : list gstr := map gc_name (filter (kind_is kd) cs).
+
+Lemma kind_test_total kd c : kind_test kd c = Some (kind_is kd c).
+Proof. destruct kd; reflexivity. Qed.
+
+Lemma fold_names_any kd : forall cs acc,
+  fold_left (fun (g_st : option (list gstr)) (g_child : gchild) =>
+     match g_st with
+     | None => None
+     | Some a => if gs_is_some (kind_test kd g_child)
+                 then (if gs_get false (kind_test kd g_child) then (let a := a ++ [gc_name g_child] in Some a) else Some a)
+                 else None
+     end) cs (Some acc) = Some (acc ++ names_of kd cs).
+Proof.
+  unfold names_of. induction cs as [|c cs IH]; intros acc; cbn [fold_left filter map]; [rewrite app_nil_r; reflexivity|].
+  rewrite kind_test_total. cbn [gs_is_some gs_get]. destruct (kind_is kd c); cbn [map]; rewrite IH; [rewrite <- app_assoc; reflexivity|reflexivity].
+Qed.
+
+Theorem listing_any_order p v nd : analysis_path p = Ok v ->
+  tr_getDomain p nd false = Some (names_of KNode (map snd (ge_children nd)), false) /\
+  tr_getDomainKey p nd false = Some (names_of KLeaf (map snd (ge_children nd)), false).
+Proof.
+  intros Hp. unfold tr_getDomain, tr_getDomainKey. rewrite tr_analysisPath_equiv, Hp. cbn [Bool.eqb negb]. split.
+  - change (tr_isNode ?c) with (kind_test KNode c). rewrite fold_names_any. reflexivity.
+  - change (tr_isLeaf ?c) with (kind_test KLeaf c). rewrite fold_names_any. reflexivity.
+Qed.
+
+Lemma names_of_perm kd cs cs' : Permutation cs cs' -> Permutation (names_of kd cs) (names_of kd cs').
+Proof.
+  unfold names_of. intros P. apply Permutation_map. induction P as [|x l l' P IH|x y l|l l' l'' P1 IH1 P2 IH2]; cbn [filter].
+  - constructor.
+  - destruct (kind_is kd x); [constructor; exact IH|exact IH].
+  - destruct (kind_is kd x); destruct (kind_is kd y); try apply Permutation_refl. apply perm_swap.
+  - eapply Permutation_trans; eassumption.
+Qed.
+
+(* the two listings of an element do not depend on the order in which its children are visited *)
+Theorem listing_order_independent p v nd nd' : analysis_path p = Ok v ->
+  Permutation (map snd (ge_children nd)) (map snd (ge_children nd')) ->
+  exists l l' k k', tr_getDomain p nd false = Some (l, false) /\ tr_getDomain p nd' false = Some (l', false) /\ Permutation l l' /\
+                    tr_getDomainKey p nd false = Some (k, false) /\ tr_getDomainKey p nd' false = Some (k', false) /\ Permutation k k'.
+Proof.
+  intros Hp P. destruct (listing_any_order p v nd Hp) as [A1 A2]. destruct (listing_any_order p v nd' Hp) as [B1 B2].
+  do 4 eexists. repeat split; try eassumption; apply names_of_perm; exact P.
+Qed.
+
+Example ex_listing_order :
+  let c1 := {| gc_kind := k_conf_Node; gc_name := [97%N]; gc_value := [] |} in
+  let c2 := {| gc_kind := k_conf_Leaf; gc_name := [98%N]; gc_value := [49%N] |} in
+  analysis_path [47%N; 120%N] = Ok [[120%N]] /\ Permutation [c1; c2] [c2; c1].
+Proof. split; [reflexivity|apply perm_swap]. Qed.
